@@ -4,6 +4,8 @@ import (
 	"sync"
 
 	logging "github.com/ipfs/go-log/v2"
+
+	"github.com/ipfs/go-graphsync/verifhook"
 )
 
 var log = logging.Logger("gs-notifications")
@@ -129,6 +131,7 @@ loop:
 				break loop
 			}
 
+			verifhook.Busy(-1)
 			continue loop
 		}
 
@@ -144,6 +147,7 @@ loop:
 				reg.removeTopic(topic)
 			}
 		}
+		verifhook.Busy(-1)
 	}
 
 	for topic, subs := range reg.topics {
@@ -151,6 +155,7 @@ loop:
 			reg.remove(topic, sub)
 		}
 	}
+	verifhook.Busy(-1)
 }
 
 type subscriberRegistry struct {
@@ -212,6 +217,7 @@ func (reg *subscriberRegistry) remove(topic Topic, sub Subscriber) {
 }
 
 func (ps *publisher) queue(cmd cmd) {
+	verifhook.Busy(1)
 	ps.cmdsLk.L.Lock()
 	ps.cmds = append(ps.cmds, cmd)
 	cmdsLen := len(ps.cmds)
